@@ -421,6 +421,18 @@ func runC17(c *explore.Ctx) {
 			return
 		}
 	}
+	if c.Mine() {
+		// records put across the 1 GiB offset of a segment (beyond fs.OSMMap's initial mapping window): same outcome on
+		// the mapped and the plain OS file system (the file is extended sparsely, see c16GrowPastMapping)
+		c.Add("executions", 2)
+		a, b := c16GrowPastMapping("os", filepath.Join(scratch, "grow-os")), c16GrowPastMapping("osmmap", filepath.Join(scratch, "grow-mm"))
+		if a != b {
+			d := strings.ReplaceAll(fmt.Sprintf("fs=os: %q; fs=osmmap: %q", a, b), scratch, "<scratch>")
+			c.Violation(explore.Violation{Key: "grow-past-mapping", What: "program [Put, Close, segment extended sparsely to 4 KiB below 1 GiB, Open, four Puts of 3000-byte values, Reopen] behaves differently on fs.OS and fs.OSMMap (empty = everything read back): " + d, Size: 1,
+				Replay: map[string]interface{}{"kind": "grow17", "observed": d}})
+			return
+		}
+	}
 	c17Conc(c, scratch)
 	if c.Expired() || c.NViolations() > 0 {
 		return
